@@ -81,11 +81,15 @@ Definition tcp_parse_size (h : bytes) : option Z :=
         end
   end.
 
-(* size > COAP_DEFAULT_MAX_PDU_RX_SIZE, or coap_pdu_init(.., max_rcv) followed by
+(* size > COAP_DEFAULT_MAX_PDU_RX_SIZE, or coap_pdu_init(.., max_rcv) fails because
+   max_rcv > COAP_DEFAULT_MAX_PDU_RX_SIZE - max_hdr_size, or it is followed by
    "alloc_size < size && !coap_pdu_resize(pdu, size)" (alloc_size = min(max_rcv,256) <= max_size =
    max_rcv; resize refuses new_size > max_size when max_size != 0) *)
+Definition tcp_pdu_max_hdr : Z := 6.     (* COAP_PDU_MAX_TCP_HEADER_SIZE: pdu->max_hdr_size *)
 Definition tcp_oversize (c : tcp_cfg) (size : Z) : bool :=
-  (tcp_hard_cap c <? size) || ((0 <? tcp_sess_cap c) && (tcp_sess_cap c <? size)).
+  (tcp_hard_cap c <? size)
+  || (tcp_hard_cap c - tcp_pdu_max_hdr <? tcp_sess_cap c)      (* coap_pdu_init returns NULL *)
+  || ((0 <? tcp_sess_cap c) && (tcp_sess_cap c <? size)).
 
 (* ---- reader state: the session fields ---- *)
 Inductive tcp_rstate :=
